@@ -75,6 +75,11 @@ def cells(tier):
     out.append({'kind': 'smtp', 'lmtp': 0, 'pipe': 1, 'n': 3, 'dup': 1})
     out.append({'kind': 'smtp', 'lmtp': 0, 'pipe': 0, 'n': 3, 'dup': 1})
     out.append({'kind': 'smtp', 'lmtp': 1, 'pipe': 1, 'n': 3, 'dup': 1})
+    # a non-ASCII address for a server that does not offer SMTPUTF8
+    for lmtp, pipe in ((0, 0), (0, 1), (1, 1)):
+        out.append({'kind': 'smtp', 'lmtp': lmtp, 'pipe': pipe, 'n': 2,
+                    'utf8': 1})
+    out.append({'kind': 'smtp', 'lmtp': 0, 'pipe': 1, 'n': 1, 'utf8': 2})
     out.append({'kind': 'smtp', 'lmtp': 0, 'pipe': 1, 'n': 1, 'reuse': 1})
     out.append({'kind': 'smtp', 'lmtp': 1, 'pipe': 0, 'n': 2, 'reuse': 1})
     for pipe in (0, 1):
@@ -134,6 +139,12 @@ def run_smtp(cell):
     rcpts = RC[:n]
     if cell.get('dup'):
         rcpts = [RC[0], RC[0]] + RC[1:n - 1]
+    utf8 = cell.get('utf8', 0)
+    wire_rcpts = list(rcpts)
+    if utf8 == 1:
+        rcpts = [RC[0], '\u00fcser@x']
+        wire_rcpts = [RC[0]]          # the other one cannot be put on the wire
+        n = 1
     # stages in conversation order, with their index
     stages = [('banner', 0), ('LHLO' if lmtp else 'EHLO', 0), ('MAIL', 0)] + \
         [('RCPT', i) for i in range(n)] + [('DATA', 0)] + \
@@ -183,7 +194,8 @@ def run_smtp(cell):
     if cell.get('reuse'):
         kw['idle_timeout'] = 5
     relay = make_relay(lmtp, creator, **kw)
-    env = qc.make_envelope('m1', 's@z', rcpts)
+    env = qc.make_envelope('m1', 's\u00e9nder@z' if utf8 == 2 else 's@z',
+                           rcpts)
     out = []
     g = gevent.spawn(attempt, relay, env, out)
     out2 = []
@@ -195,6 +207,43 @@ def run_smtp(cell):
     qc.run_until_quiescent()
     info = dict(lmtp=lmtp, pipe=pipe, n=n, fault=fault, fkind=fkind)
     if not api.prove(len(out) == 1, 'attempt-never-finished', **info):
+        return
+    if utf8:
+        kind, val = out[0]
+        if not api.prove(kind != 'other-exception', 'non-relay-exception',
+                         exc=type(val).__name__, **info):
+            return
+        bad = rcpts[-1] if utf8 == 1 else None
+        if utf8 == 2:
+            # the sender cannot be put on the wire: no delivery, and unless
+            # the session failed before MAIL the failure is permanent
+            if api.prove(kind == 'relay-error',
+                         'delivered-although-peer-did-not-accept',
+                         rcpt='sender', **info):
+                if fault is None or fault[0] not in ('banner', 'EHLO', 'HELO',
+                                                     'LHLO'):
+                    api.prove(isinstance(val, PermanentRelayError),
+                              'undeliverable-address-not-a-permanent-failure',
+                              got=type(val).__name__, **info)
+            return
+        if kind == 'value' and utf8 == 1 and isinstance(val, dict):
+            v = val.get(bad, 'missing')
+            api.prove(isinstance(v, PermanentRelayError),
+                      'undeliverable-address-not-a-permanent-failure',
+                      got=type(v).__name__, **info)
+            val = dict((k, x) for k, x in val.items() if k != bad)
+        elif kind == 'value':
+            api.fail('delivered-although-peer-did-not-accept', rcpt=bad or
+                     'sender', **info)
+            return
+        elif fault is None:
+            # nothing else went wrong: the only failure is the address
+            api.prove(isinstance(val, PermanentRelayError),
+                      'undeliverable-address-not-a-permanent-failure',
+                      got=type(val).__name__, **info)
+            return
+        judge_smtp((kind, val), peers[0] if peers else None, wire_rcpts, lmtp,
+                   fault, fkind, fcode, info, first=True)
         return
     judge_smtp(out[0], peers[0] if peers else None, rcpts, lmtp, fault,
                fkind, fcode, info, first=True)
